@@ -40,6 +40,19 @@ pub struct Scn {
     pub spawn_fail_pm: u16,
     pub clock: String,
     pub strategy: String,
+    /// a respawnable group thread whose body returns at once this many times (premature
+    /// exits -> throttled respawns) and then blocks in await_start_of_shutdown
+    #[serde(default)]
+    pub respawnable_exits: Option<u32>,
+    /// one-shot group threads started at these times (ms), each sleeping `.1` ms
+    #[serde(default)]
+    pub oneshots: Vec<(u64, u64)>,
+    /// a thread that calls await_shutdown at this time (possibly long before any shutdown)
+    #[serde(default)]
+    pub early_awaiter_ms: Option<u64>,
+    /// a thread that calls await_start_of_shutdown at this time
+    #[serde(default)]
+    pub start_waiter_ms: Option<u64>,
 }
 
 pub struct C29;
@@ -118,6 +131,10 @@ impl Prop for C29 {
             spawn_fail_pm: if chance(r, 15) { 60 } else { 0 },
             clock,
             strategy,
+            respawnable_exits: if chance(r, 20) { Some(range(r, 0, 3) as u32) } else { None },
+            oneshots: if chance(r, 25) { (0..range(r, 1, 2)).map(|_| (dur_grid(r, 1000), dur_grid(r, 1000))).collect() } else { vec![] },
+            early_awaiter_ms: if chance(r, 30) { Some(dur_grid(r, 1000)) } else { None },
+            start_waiter_ms: if chance(r, 20) { Some(dur_grid(r, 1000)) } else { None },
         }
     }
 
@@ -212,6 +229,26 @@ impl Prop for C29 {
                 }
             }
         }
+        if s.respawnable_exits.is_some() {
+            let mut c = s.clone();
+            c.respawnable_exits = None;
+            out.push(c);
+        }
+        if !s.oneshots.is_empty() {
+            let mut c = s.clone();
+            c.oneshots.clear();
+            out.push(c);
+        }
+        if s.early_awaiter_ms.is_some() {
+            let mut c = s.clone();
+            c.early_awaiter_ms = None;
+            out.push(c);
+        }
+        if s.start_waiter_ms.is_some() {
+            let mut c = s.clone();
+            c.start_waiter_ms = None;
+            out.push(c);
+        }
         if s.clock != "des" {
             let mut c = s.clone();
             c.clock = "des".into();
@@ -224,7 +261,7 @@ impl Prop for C29 {
         rec.preemptions > 0 || rec.clock_preemptions > 0
     }
     fn rule() -> String {
-        "one execution = one seeded scenario (pools with 0-2 permanent workers, linger 0/1ms/1s/15s, 1-4 submitters x 1-3 submit/submit_or_spawn calls on a time grid aligned with the linger value, optional pool/group shutdown actor, optional spurious wake-ups and thread-spawn failures) under one seeded schedule (random or PCT depth 1-4; DES or eager clock). Non-trivial = at least one preemption of a runnable task or one eager timer firing; distinct = distinct (scenario, recorded schedule) hash".into()
+        "one execution = one seeded scenario (pools with 0-2 permanent workers, linger 0/1ms/1s/15s, 1-4 submitters x 1-3 submit/submit_or_spawn calls on a time grid aligned with the linger value, optional pool/group shutdown actor, optional respawnable group thread that exits prematurely, one-shot group threads, a thread waiting in await_shutdown / await_start_of_shutdown before any shutdown, optional spurious wake-ups and thread-spawn failures) under one seeded schedule (random or PCT depth 1-4; DES or eager clock). Non-trivial = at least one preemption of a runnable task or one eager timer firing; distinct = distinct (scenario, recorded schedule) hash".into()
     }
     fn assumptions() -> Vec<String> {
         vec![
@@ -243,7 +280,7 @@ impl Prop for C29 {
         "E1 simrt-threads"
     }
     fn expected_probes() -> Vec<&'static str> {
-        vec!["condvar_wait_timed_out", "c29_submit_rejected_after_shutdown", "c29_spawn_failed", "c29_task_ran_after_pool_shutdown", "c29_submit_blocked_until_shutdown"]
+        vec!["condvar_wait_timed_out", "c29_respawned_after_premature_exit", "c29_early_awaiter_returned", "c29_submit_rejected_after_shutdown", "c29_spawn_failed", "c29_task_ran_after_pool_shutdown", "c29_submit_blocked_until_shutdown"]
     }
 }
 
@@ -271,6 +308,8 @@ fn run(scn: &Scn) {
     // event stamp at which a shutdown call of pool p (or the group) returned
     let pool_down: Arc<Vec<AtomicU64>> = Arc::new((0..scn.permanent.len()).map(|_| AtomicU64::new(u64::MAX)).collect());
 
+    // event stamp at which the first group.shut_down() was *invoked*
+    let group_down_invoked = Arc::new(AtomicU64::new(u64::MAX));
     let group = ThreadGroup::new();
     let mut pools = vec![];
     for p in 0..scn.permanent.len() {
@@ -341,11 +380,12 @@ fn run(scn: &Scn) {
     }
     for sd in &scn.shutdowns {
         horizon_ms = horizon_ms.max(sd.at_ms);
-        let (sd, pools, group, pool_down) = (sd.clone(), pools.clone(), group.clone(), pool_down.clone());
+        let (sd, pools, group, pool_down, gdi) = (sd.clone(), pools.clone(), group.clone(), pool_down.clone(), group_down_invoked.clone());
         hs.push(shuttle::thread::spawn(move || {
             simrt::thread::sleep(Duration::from_millis(sd.at_ms));
             simrt::count_fault(Fault::Shutdown);
             if sd.what == "group" {
+                gdi.fetch_min(simrt::stamp(), SeqCst);
                 group.shut_down();
                 let s = simrt::event("group_shut_down_returned", 0, 0);
                 for p in pool_down.iter() {
@@ -361,12 +401,84 @@ fn run(scn: &Scn) {
         }));
     }
 
+    // --- group-level actors ----------------------------------------------------------
+    let respawn_runs = Arc::new(AtomicU32::new(0));
+    if let Some(exits) = scn.respawnable_exits {
+        let (g2, runs, after_await, late) = (group.clone(), respawn_runs.clone(), after_await.clone(), late_activity.clone());
+        let r = group.start_respawnable(Some("extra".into()), move || {
+            if after_await.load(SeqCst) {
+                late.fetch_add(1, SeqCst);
+            }
+            let n = runs.fetch_add(1, SeqCst);
+            if n >= exits {
+                g2.await_start_of_shutdown();
+            }
+            // returning before shutdown = premature exit: the group respawns the thread (throttled)
+        });
+        if matches!(r, Err(Error::Io(_))) {
+            simrt::probe("c29_spawn_failed");
+        }
+    }
+    let oneshot_ran: Arc<Vec<AtomicU32>> = Arc::new((0..scn.oneshots.len()).map(|_| AtomicU32::new(0)).collect());
+    let oneshot_ok: Arc<Vec<AtomicU32>> = Arc::new((0..scn.oneshots.len()).map(|_| AtomicU32::new(0)).collect());
+    for (k, (at, body_ms)) in scn.oneshots.iter().enumerate() {
+        horizon_ms = horizon_ms.max(at + body_ms);
+        let (group, ran, ok, after_await, late, at, body_ms) = (group.clone(), oneshot_ran.clone(), oneshot_ok.clone(), after_await.clone(), late_activity.clone(), *at, *body_ms);
+        hs.push(shuttle::thread::spawn(move || {
+            simrt::thread::sleep(Duration::from_millis(at));
+            let (ran2, after2, late2) = (ran.clone(), after_await.clone(), late.clone());
+            let r = group.start_oneshot(Some(format!("oneshot{k}")), move || {
+                if after2.load(SeqCst) {
+                    late2.fetch_add(1, SeqCst);
+                }
+                ran2[k].fetch_add(1, SeqCst);
+                if body_ms > 0 {
+                    simrt::thread::sleep(Duration::from_millis(body_ms));
+                }
+                ran2[k].fetch_add(100, SeqCst);
+                if after2.load(SeqCst) {
+                    late2.fetch_add(1, SeqCst);
+                }
+            });
+            match r {
+                Ok(()) => ok[k].store(1, SeqCst),
+                Err(Error::Io(_)) => simrt::probe("c29_spawn_failed"),
+                Err(Error::ShuttingDown) => ok[k].store(2, SeqCst),
+            }
+        }));
+    }
+    if let Some(at) = scn.early_awaiter_ms {
+        let (group, after_await, gdi) = (group.clone(), after_await.clone(), group_down_invoked.clone());
+        hs.push(shuttle::thread::spawn(move || {
+            simrt::thread::sleep(Duration::from_millis(at));
+            group.await_shutdown();
+            after_await.store(true, SeqCst);
+            let now = simrt::stamp();
+            if gdi.load(SeqCst) > now {
+                viol("await-shutdown-returned-before-shutdown-began", format!("await_shutdown returned at event {now}, no group shut_down had been invoked"));
+            }
+            simrt::probe("c29_early_awaiter_returned");
+        }));
+    }
+    if let Some(at) = scn.start_waiter_ms {
+        let (group, gdi) = (group.clone(), group_down_invoked.clone());
+        hs.push(shuttle::thread::spawn(move || {
+            simrt::thread::sleep(Duration::from_millis(at));
+            group.await_start_of_shutdown();
+            let now = simrt::stamp();
+            if gdi.load(SeqCst) > now {
+                viol("await-start-of-shutdown-returned-early", format!("await_start_of_shutdown returned at event {now}, no group shut_down had been invoked"));
+            }
+        }));
+    }
+
     // Let the scenario play out, then shut the group down *before* joining the
     // submitters: a submitter blocked in `submit` on a pool without workers is
     // legal and is released only by shutdown.
     let max_linger = scn.linger_ms.iter().copied().max().unwrap_or(0);
     simrt::thread::sleep(Duration::from_millis(horizon_ms + max_linger + 2_000));
     let blocked_before = recs.lock().unwrap().len();
+    group_down_invoked.fetch_min(simrt::stamp(), SeqCst);
     group.shut_down();
     let s = simrt::event("main_group_shut_down_returned", 0, 0);
     for p in pool_down.iter() {
@@ -409,6 +521,17 @@ fn run(scn: &Scn) {
         if r.ok && r.returned > down {
             simrt::probe("c29_task_ran_after_pool_shutdown");
         }
+    }
+    for k in 0..scn.oneshots.len() {
+        let (ran, ok) = (oneshot_ran[k].load(SeqCst), oneshot_ok[k].load(SeqCst));
+        match ok {
+            1 if ran != 101 => viol("oneshot-not-run-exactly-once", format!("one-shot thread {k} was started (Ok) but its body count is {ran} (101 = started and finished once) when await_shutdown returned")),
+            2 if ran != 0 => viol("rejected-task-ran", format!("one-shot thread {k} was rejected but ran ({ran})")),
+            _ => {}
+        }
+    }
+    if scn.respawnable_exits.is_some() && respawn_runs.load(SeqCst) > 1 {
+        simrt::probe("c29_respawned_after_premature_exit");
     }
     if late_activity.load(SeqCst) > 0 {
         viol("task-active-after-await-returned", format!("{} task body start/finish events after await_shutdown returned", late_activity.load(SeqCst)));
